@@ -881,3 +881,17 @@ pub fn one_of<T: Clone + Debug + 'static>(items: &'static [T]) -> BoxedStrategy<
 pub fn one_of_vec<T: Clone + Debug + 'static>(items: Vec<T>) -> BoxedStrategy<T> {
     (0..items.len()).prop_map(move |i| items[i].clone()).boxed()
 }
+
+/// Declares `replay` and `preamble` (finding witnesses + committed regressions) for a property's parts.
+#[macro_export]
+macro_rules! declare_parts {
+    ($($p:ty),+ $(,)?) => {
+        pub fn replay(ctx: &mut $crate::runner::Ctx, rf: &$crate::runner::ReplayFile) -> bool {
+            false $(|| ctx.replay_one::<$p>(rf))+
+        }
+        #[allow(dead_code)]
+        fn preamble(ctx: &mut $crate::runner::Ctx) {
+            $(ctx.run_finding_witnesses::<$p>(); ctx.run_regressions::<$p>();)+
+        }
+    };
+}
